@@ -106,6 +106,71 @@ func driveMul(c *ctx) {
 			}
 		}
 	}
+	// the double multiply u1*G + u2*P with each term vanishing in turn: u1 = 0, u2 = 0, P the identity (every representative),
+	// both at once; and with the terms cancelling (u2*P = -u1*G)
+	{
+		some := []*big.Int{big.NewInt(0), big.NewInt(1), big.NewInt(2), add(bigN, -1), bigLambda, randBig(r, bigN), randBig(r, bigN)}
+		for i, u1 := range some {
+			for j, u2 := range some {
+				for pi, p0 := range pts {
+					if !c.thorough() && i > 1 && j > 1 && (i+j+pi)%3 != 0 {
+						continue
+					}
+					p := clonePt(p0)
+					v := rep(R1, big.NewInt(int64(5+i+j)))
+					a, b := scFrom(u1), scFrom(u2)
+					v.DoubleScalarMultBasepointVartime(a, b, p)
+					c.E("dsm", "alias", "none", "u1", h32(u1), "u2", h32(u2), "p", ptRaw(p0), "out", ptRaw(v), "p_post", ptRaw(p), "vanish", 1)
+					if (i+j+pi)%2 == 0 {
+						p = clonePt(p0)
+						p.DoubleScalarMultBasepointVartime(scFrom(u1), scFrom(u2), p)
+						c.E("dsm", "alias", "v=p", "u1", h32(u1), "u2", h32(u2), "p", ptRaw(p0), "out", ptRaw(p), "vanish", 1)
+					}
+				}
+			}
+		}
+		for i := 0; i < 4; i++ { // u2 * (k*G) = -u1 * G
+			k, u2 := add(randBig(r, add(bigN, -1)), 1), add(randBig(r, add(bigN, -1)), 1)
+			u1 := new(big.Int).Mod(new(big.Int).Neg(new(big.Int).Mul(k, u2)), bigN)
+			p := mulG(k)
+			v := secp256k1.NewGeneratorPoint().DoubleScalarMultBasepointVartime(scFrom(u1), scFrom(u2), p)
+			c.E("dsm", "alias", "none", "u1", h32(u1), "u2", h32(u2), "p", ptRaw(p), "out", ptRaw(v), "p_post", ptRaw(p), "vanish", 1)
+		}
+	}
+	// one object through SEVERAL multiplies: an in-place multiply (the receiver is the point), then the result — the same object, a
+	// Set copy, a NewPointFrom copy — is the point of the next multiply, through every entry point.  Whatever a multiply keeps
+	// from one call to the next (tables, a "last point") has to be keyed by the point's value at the time it was read.
+	for round := 0; round < c.scale(4, 30); round++ {
+		p := clonePt(pts[3+round%2])
+		for step := 0; step < 6; step++ {
+			k1 := kinds[r.Intn(len(kinds))]
+			s1 := scalars[r.Intn(len(scalars))]
+			if s1.Sign() == 0 {
+				s1 = big.NewInt(3)
+			}
+			ph := ptRaw(p)
+			k1.f(p, scFrom(s1), p)
+			c.E("mul.ScalarMult", "kind", k1.kind, "alias", "v=p", "s", h32(s1), "p", ph, "out", ptRaw(p), "seq", 1)
+			for _, k2 := range kinds {
+				s2 := add(randBig(r, add(bigN, -1)), 1)
+				var q *secp256k1.Point
+				switch r.Intn(3) {
+				case 0:
+					q = p
+				case 1:
+					q = secp256k1.NewIdentityPoint().Set(p)
+				default:
+					q = secp256k1.NewPointFrom(p)
+				}
+				qh := ptRaw(q)
+				v := rep(R1, big.NewInt(int64(9+step)))
+				sObj := scFrom(s2)
+				k2.f(v, sObj, q)
+				c.E("mul.ScalarMult", "kind", k2.kind, "alias", "none", "s", h32(s2), "p", qh, "out", ptRaw(v), "p_post", ptRaw(q), "s_post", hx(sObj.Bytes()),
+					"enc", hx(v.UncompressedBytes()), "seq", 1)
+			}
+		}
+	}
 	// multiples tables and the endomorphism
 	for _, p0 := range pts {
 		tbl := secp256k1.VerifNewProjTable(p0)
